@@ -115,15 +115,16 @@ class CheckFitDesc(Contract):
             cx.oblige(f"post.options_per_dimension.{i}", r[i].get("method") == want[0] and r[i].get("weights", "ABSENT") == want[1], "post", "options of dimension i (defaults mle / None)")
 
 
-def _fit_cases():
+def _fit_cases(dims=(2, 3)):
     out = []
-    for co in structures((2, 3)):
+    for co in structures(dims):
         out.append(dict(co=co, data="ok"))
-    out.append(dict(co=[None, 0], data="wrong_dim"))
+    if 2 in dims:
+        out.append(dict(co=[None, 0], data="wrong_dim"))
     return out
 
 
-@contract(GHM + ".fit", ["C09", "C18"], _fit_cases(), name="ghm.fit")
+@contract(GHM + ".fit", ["C09", "C18"], _fit_cases(), name="ghm.fit", thorough_cases=_fit_cases((4,)))
 class GhmFit(Contract):
     """fit: dimension i is fitted with ITS OWN method / weights; an unconditional variable to column i of the data;
     a conditional one to the per-interval data obtained by slicing the declared conditioning column"""
@@ -264,7 +265,8 @@ class SplitInIntervals(Contract):
         cx.oblige("frame.data", self.data.buf.writes == 0, "frame")
 
 
-@contract(CD + ".fit", ["C09", "C19", "C12"], [dict(m=m, deps=dp) for m in (1, 3) for dp in (("alpha",), ("alpha", "beta"))], name="cond.fit")
+@contract(CD + ".fit", ["C09", "C19", "C12"], [dict(m=m, deps=dp) for m in (1, 3) for dp in (("alpha",), ("alpha", "beta"))], name="cond.fit",
+          thorough_cases=[dict(m=m, deps=dp) for m in (2, 5, 8) for dp in (("alpha",), ("beta",), ("alpha", "beta"))])
 class CondFit(Contract):
     """every interval is fitted by a stand-alone fit of a COPY of the template to exactly that interval's data with
     the given method / weights; the template itself is never fitted; every dependence function is fitted to the
